@@ -22,6 +22,7 @@ type Env struct {
 	idx   *Val // $idx
 	vis   map[string]*Val
 	pats  *patCollector
+	idxBy map[int]*Val
 }
 
 func (e *Env) with(st *State) *Env {
@@ -128,7 +129,8 @@ func (e *Env) eval(x SExpr) *Val {
 			}
 			el := deref(v.T)
 			if el == nil {
-				return e.fail("* of non-pointer")
+				// pure methods with pointer receivers are also applied to values
+				return v
 			}
 			_, h := e.vc.heap(e.st, el)
 			return &Val{T: el, S: "(select " + h + " " + v.S + ")"}
@@ -246,6 +248,14 @@ func (e *Env) ident(name string) *Val {
 	}
 	if name == "$rh" {
 		return &Val{T: tInt, S: e.st.rh}
+	}
+	if strings.HasPrefix(name, "$idx#") {
+		var n int
+		fmt.Sscanf(name[5:], "%d", &n)
+		if v, ok := e.idxBy[n]; ok {
+			return v
+		}
+		return e.fail("%s: loop %d has no live range index here", name, n)
 	}
 	if name == "$idx" {
 		if e.idx != nil {
@@ -643,6 +653,27 @@ func (e *Env) call(n *SCall) *Val {
 			return &Val{T: types.NewPointer(et), S: iv.absName}
 		}
 		return &Val{T: types.NewPointer(et), S: "(idx (sptr " + sv.S + ") " + iv.S + ")"}
+	case "unchanged":
+		// unchanged(heap[T]): every object of type T that existed at function entry
+		// has its entry value
+		if !need(1) {
+			return e.fail("")
+		}
+		hl, ok := n.Args[0].(*SHeapLit)
+		if !ok || e.old == nil {
+			return e.fail("unchanged(heap[T]) needs an entry state")
+		}
+		t, err := e.resolveType(hl.Type)
+		if err != nil {
+			return e.fail("%v", err)
+		}
+		_, h1 := vc.heap(e.st, t)
+		_, h0 := vc.heap(e.old, t)
+		if h1 == h0 {
+			return &Val{T: tBool, S: "true"}
+		}
+		qn := fmt.Sprintf("q_un_%d", e.depth)
+		return &Val{T: tBool, S: fmt.Sprintf("(forall ((%s Int)) (! (=> (and (<= 0 %s) (< %s %s)) (= (select %s %s) (select %s %s))) :pattern ((select %s %s))))", qn, qn, qn, e.old.alloc, h1, qn, h0, qn, h1, qn)}
 	case "zero":
 		tl, ok := n.Args[0].(*STypeLit)
 		if !ok {
